@@ -51,6 +51,55 @@ func orAllPaths(ts ...vtree) [][]string {
 	return out
 }
 
+// orRelated: one path is a prefix of the other (or they are equal).
+func orRelated(p, q []string) bool {
+	n := len(p)
+	if len(q) < n {
+		n = len(q)
+	}
+	for i := 0; i < n; i++ {
+		if p[i] != q[i] {
+			return false
+		}
+	}
+	return true
+}
+
+// orKeyPrefix: the table keys of a --set path up to and including the first indexed segment.
+func orKeyPrefix(p []c04Seg) []string {
+	var out []string
+	for _, s := range p {
+		out = append(out, s.Key)
+		if len(s.Idx) > 0 {
+			break
+		}
+	}
+	return out
+}
+
+// orWalk follows keys and list indexes.
+func orWalk(p []c04Seg, t interface{}) (interface{}, bool) {
+	v := t
+	for _, s := range p {
+		m, ok := v.(vtree)
+		if !ok {
+			return nil, false
+		}
+		v, ok = m[s.Key]
+		if !ok {
+			return nil, false
+		}
+		for _, i := range s.Idx {
+			l, ok := v.([]interface{})
+			if !ok || i >= len(l) {
+				return nil, false
+			}
+			v = l[i]
+		}
+	}
+	return v, true
+}
+
 func orHasKey(p []string, k string) bool {
 	for _, x := range p {
 		if x == k {
@@ -107,13 +156,77 @@ func (*c04) Oracle(ci, oi any) []hx.Violation {
 	if obs.Err != "" {
 		return vs
 	}
+	pstr := func(p []string) string { return strings.Join(p, ".") }
 	out, ok := orAsTree(obs.Out)
 	if !ok {
 		add("result-not-a-table", fmt.Sprintf("%s returned %T", c.Kind, obs.Out))
 		return vs
 	}
-	pstr := func(p []string) string { return strings.Join(p, ".") }
 	switch c.Kind {
+	case "opts":
+		// the documented order: c.Opts.Assign lists what each source sets, lowest precedence
+		// first; the last source that touches a path (or anything above or below it) decides.
+		as := c.Opts.Assign
+		for i, a := range as {
+			last := true
+			for _, b := range as[i+1:] {
+				if orRelated(a.Path, b.Path) {
+					last = false
+					break
+				}
+			}
+			if !last || !a.Exact {
+				continue
+			}
+			got, ok := vtLookup(a.Path, out)
+			if !ok || !vtEqual(got, a.Val) {
+				add("flag-precedence", fmt.Sprintf("Options.MergeValues: path %s: the highest-precedence source sets %v, result has %v (%v)", pstr(a.Path), a.Val, got, ok))
+			}
+		}
+	case "parse":
+		before := c.Parse.Dest
+		if before == nil {
+			before = vtree{}
+		}
+		var roots [][]string
+		for _, pr := range c.Parse.Pairs {
+			roots = append(roots, orKeyPrefix(pr.Path))
+		}
+		if len(c.Parse.Pairs) > 0 {
+			// (1) the named path holds the typed value
+			for i, pr := range c.Parse.Pairs {
+				later := false
+				for _, q := range roots[i+1:] {
+					if orRelated(roots[i], q) {
+						later = true
+					}
+				}
+				if later {
+					continue
+				}
+				got, ok := orWalk(pr.Path, out)
+				if !ok || !vtEqual(got, pr.Val) {
+					add("set-names-path", fmt.Sprintf("%s(%q): path %s should hold %#v, result has %#v (%v)", c.Parse.Fn, c.Parse.S, c04ShowPathLiteral(pr.Path), pr.Val, got, ok))
+				}
+			}
+			// (2) nothing else changed
+			for _, q := range orAllPaths(before, out) {
+				rel := false
+				for _, r := range roots {
+					if orRelated(q, r) {
+						rel = true
+					}
+				}
+				if rel {
+					continue
+				}
+				b, bok := vtLookup(q, before)
+				a, aok := vtLookup(q, out)
+				if bok != aok || (bok && !vtEqual(a, b)) {
+					add("set-changes-other-path", fmt.Sprintf("%s(%q): path %s is not named by the expression but changed from %#v (%v) to %#v (%v)", c.Parse.Fn, c.Parse.S, pstr(q), b, bok, a, aok))
+				}
+			}
+		}
 	case "files", "mergemaps":
 		srcs := c.Files
 		if c.Kind == "mergemaps" {
